@@ -243,6 +243,7 @@ type scenario struct {
 	q           *dns.Msg
 	real        bool      // NewForward over loopback UDP instead of in-memory upstreams
 	blank       bool      // QuickConfigureExec(" ") : no upstream at all
+	pad         int       // >0: pad the query (EDNS0 padding in qCtx.QOpt()) to exactly this many bytes on the wire
 	catSeq      []outcome // catalogue: the j-th existing call (by upstream, occurrence) gets catSeq[j]
 }
 
@@ -342,11 +343,41 @@ func entry(f *fastforward.Forward, sc *scenario) (sequence.Executable, error) {
 	return e.(sequence.Executable), nil
 }
 
-func emitRun(sc *scenario, calls []int, payOK bool, dl string, evs []string, obs string, stuck int, extra map[string]any) result {
+// padQuery grows the query of qCtx to exactly target bytes on the wire with an
+// EDNS0 padding option in the OPT record query_context put there (what an
+// ecs/padding plugin in front of forward does). The padding is patterned so
+// that no stale buffer can be mistaken for it.
+func padQuery(qCtx *query_context.Context, target int, seed uint64) {
+	if target <= 0 {
+		return
+	}
+	opt := qCtx.QOpt()
+	p := &dns.EDNS0_PADDING{Padding: []byte{}}
+	opt.Option = append(opt.Option, p)
+	base, err := qCtx.Q().Pack()
+	if err != nil {
+		panic(err)
+	}
+	if k := target - len(base); k > 0 {
+		p.Padding = hx.GenBytes(k, seed|1)
+		for i := range p.Padding {
+			p.Padding[i] |= 0x80
+		}
+	}
+	w, err := qCtx.Q().Pack()
+	if err != nil {
+		panic(err)
+	}
+	if len(w) != target && len(base) <= target {
+		panic(fmt.Sprintf("padQuery: wanted %d bytes on the wire, got %d", target, len(w)))
+	}
+}
+
+func emitRun(sc *scenario, qlen int, calls []int, payOK bool, dl string, evs []string, obs string, stuck int, extra map[string]any) result {
 	sort.Ints(calls)
-	coq := hx.App("CRun", hx.Bool(sc.real), hx.Nat(sc.n), sc.selCoq(), hx.Z(int64(sc.conc)), hx.Bool(sc.ordered),
+	coq := hx.App("CRun", hx.Bool(sc.real), hx.Ni(qlen), hx.Nat(sc.n), sc.selCoq(), hx.Z(int64(sc.conc)), hx.Bool(sc.ordered),
 		hx.NatList(calls), hx.Bool(payOK), dl, hx.List(evs), obs, hx.Nat(stuck))
-	desc := map[string]any{"n": sc.n, "conc": sc.conc, "ordered": sc.ordered, "sel": sc.selCoq(), "obs": obs, "real": sc.real}
+	desc := map[string]any{"qlen": qlen, "n": sc.n, "conc": sc.conc, "ordered": sc.ordered, "sel": sc.selCoq(), "obs": obs, "real": sc.real}
 	for k, v := range extra {
 		desc[k] = v
 	}
@@ -380,6 +411,7 @@ func run(sc *scenario) result {
 	}
 
 	qCtx := query_context.NewContext(sc.q)
+	padQuery(qCtx, sc.pad, uint64(sc.q.Id)+uint64(sc.pad))
 	expected, err := qCtx.Q().Pack()
 	if err != nil {
 		panic(err)
@@ -607,7 +639,7 @@ func run(sc *scenario) result {
 	}
 
 	calls, payOK, dl := w.observe(expected)
-	return emitRun(sc, calls, payOK, dl, evs, obs, stuck, map[string]any{"qlen": len(expected)})
+	return emitRun(sc, len(expected), calls, payOK, dl, evs, obs, stuck, nil)
 }
 
 // observe reports what the upstreams saw: the upstream index of every call,
@@ -684,6 +716,7 @@ func runLate(sc *scenario, imm bool) result {
 		panic(err)
 	}
 	qCtx := query_context.NewContext(sc.q)
+	padQuery(qCtx, sc.pad, uint64(sc.q.Id)+uint64(sc.pad))
 	expected, err := qCtx.Q().Pack()
 	if err != nil {
 		panic(err)
@@ -775,7 +808,7 @@ func runLate(sc *scenario, imm bool) result {
 		pool.ReleaseBuf(b)
 	}
 	calls, payOK, dl := w.observe(expected)
-	r := emitRun(sc, calls, payOK, dl, evs, obs, stuck, map[string]any{"qlen": len(expected), "late": map[bool]string{true: "imm", false: "pre"}[imm]})
+	r := emitRun(sc, len(expected), calls, payOK, dl, evs, obs, stuck, map[string]any{"late": map[bool]string{true: "imm", false: "pre"}[imm]})
 	r.kind = "late"
 	return r
 }
@@ -791,6 +824,9 @@ func genLate(r *hx.RNG, id string, conc, n int) *scenario {
 		}
 	}
 	sc.q = genQuery(r)
+	if r.Chance(1, 6) {
+		sc.pad = hx.Pick(r, []int{8190, 8191, 9000, 20000})
+	}
 	return sc
 }
 
@@ -945,7 +981,7 @@ func runUDP(sc *scenario) result {
 		default:
 		}
 	}
-	return emitRun(sc, calls, payOK, "None", evs, obs, 0, nil)
+	return emitRun(sc, len(expected), calls, payOK, "None", evs, obs, 0, nil)
 }
 
 // ---------- generators ----------
@@ -1057,6 +1093,12 @@ func genScenario(r *hx.RNG, id string) *scenario {
 	}
 	sc.cause = r.Bool()
 	sc.q = genQuery(r)
+	if r.Chance(1, 25) {
+		sc.pad = hx.Pick(r, bigSizes) + hx.Pick(r, []int{0, 0, -7, 1, 100})
+		if sc.pad > 65535 {
+			sc.pad = 65535
+		}
+	}
 	return sc
 }
 
@@ -1106,6 +1148,7 @@ type cat struct {
 	blank    bool
 	unord    bool
 	timeout  bool
+	pad      int
 }
 
 func (c cat) scenario(seed uint64) *scenario {
@@ -1114,6 +1157,7 @@ func (c cat) scenario(seed uint64) *scenario {
 	sc := &scenario{id: id, n: c.n, conc: c.conc, ordered: !c.unord, cancelAt: c.cancelAt, preCancel: c.pre,
 		selKind: c.selKind, sub: c.sub, blank: c.blank, timeoutMode: c.timeout, cause: r.Bool()}
 	sc.q = genQuery(r)
+	sc.pad = c.pad
 	sc.maxRel = len(c.seq)
 	sc.catSeq = c.seq
 	if sc.catSeq == nil {
@@ -1121,6 +1165,8 @@ func (c cat) scenario(seed uint64) *scenario {
 	}
 	return sc
 }
+
+var bigSizes = []int{4096, 8189, 8190, 8191, 8192, 8193, 9000, 16383, 16384, 20000, 32768, 65534, 65535}
 
 func catalogue(thorough bool) []cat {
 	var cs []cat
@@ -1181,6 +1227,13 @@ func catalogue(thorough bool) []cat {
 	} {
 		add(cat{name: fmt.Sprintf("race:%d", i), n: 3, conc: 3, seq: seq, cancelAt: -1, unord: true})
 		add(cat{name: fmt.Sprintf("race-cancel:%d", i), n: 3, conc: 3, seq: seq, cancelAt: 0, unord: true})
+	}
+	// query sizes around pool.PackBuffer's 8191 byte scratch buffer (a message needs len+1 bytes of it to be
+	// packed in place; larger ones are packed into a fresh slice) and up to the largest DNS message
+	for _, size := range bigSizes {
+		add(cat{name: fmt.Sprintf("big:%d:1", size), n: 2, conc: 1, seq: S(oGood), cancelAt: -1, pad: size})
+		add(cat{name: fmt.Sprintf("big:%d:3", size), n: 3, conc: 3, seq: S(oServ, oFail, oGood), cancelAt: -1, pad: size})
+		add(cat{name: fmt.Sprintf("big:%d:q", size), n: 3, conc: 2, selKind: 2, sub: []int{2, 0}, seq: S(oFail, oRefused), cancelAt: -1, pad: size})
 	}
 	// the upstream's own 5 s deadline ends a silent exchange
 	add(cat{name: "timeout:2", n: 2, conc: 2, seq: S(oSilent, oSilent), cancelAt: -1, timeout: true})
